@@ -408,7 +408,8 @@ PROPS = {
                   "one goroutine per scripted peer (2-4 peers; announce / withdraw / bursts / session flap / ROUTE-REFRESH) and one or "
                   "two management goroutines (AddPath / DeletePath, ListPath / ListPeer, policy replacement, soft resets, "
                   "Disable/EnablePeer, DeletePeer + AddPeer, UpdatePeer, AddVrf / DeleteVrf, EnableMrt / DisableMrt with dumps left enabled "
-                  "at Stop, watchers that come and go), with the "
+                  "at Stop, watchers that come and go; some peers have a max-prefixes limit that the traffic exceeds; AddPeer / "
+                  "ListPeer calls race the final Stop), with the "
                   "verif yield points steered from the case's seed and GOMAXPROCS varied per shard. No race report, no panic; every "
                   "API call returns and the scenario finishes within a real-time budget (a lock cycle cannot be passed by the fake "
                   "clock); afterwards every peer can establish a session and ListPeer answers; Stop() leaves no goroutine of the "
